@@ -307,6 +307,19 @@ pub fn run(ctx: &mut Ctx) {
         one_case(ctx, &f, &mut rng);
     }
     ctx.note("small_space_size", json!(total));
+    // wide filters: many parenthesised sibling groups (more than 128 in total, all shallow)
+    if ctx.shard == 0 {
+        for (i, n) in [1usize, 10, 127, 128, 129, 200, 1000].iter().enumerate() {
+            if !ctx.begin("wide", i as u64) {
+                continue;
+            }
+            let mut rng = ctx.case_rng("wide", i as u64);
+            let group = |k: usize| FTerm::Parens(FOr(vec![FAnd(vec![FTerm::Cmp(vec!["id".into()], Op::Eq, MVal::Ref(format!("r{k}"), None))]), FAnd(vec![FTerm::Has(vec!["a".into()])])]));
+            let f = if i % 2 == 0 { FOr(vec![FAnd((0..*n).map(group).collect())]) } else { FOr((0..*n).map(|k| FAnd(vec![group(k), FTerm::Parens(FOr(vec![FAnd(vec![FTerm::Missing(vec!["b".into()])])]))])).collect()) };
+            ctx.eval(&format!("wide:groups{n}"), filter_fp(&f), true);
+            one_case(ctx, &f, &mut rng);
+        }
+    }
     // random deep filters with every literal kind
     let n = ctx.n(8_000, 200_000);
     for i in 0..n {
